@@ -6,7 +6,9 @@ from fractions import Fraction
 import common as C
 
 PROP = 'C14'
-THEOREMS = []
+THEOREMS = ['pos_pow_iff_walk_thm', 'is_ergodic_unfold_thm', 'ergodic_sound_thm', 'ergodic_complete_loop_partial',
+            'wielandt_exponent_covers_loop_bound', 'walks_monotone_thm', 'bpow_walk_thm', 'atol_free_eq_thm',
+            'ergodic_implies_fuzzy_thm', 'nonstochastic_neither_thm']
 CONFIGS = [dict(jit=True), dict(jit=False)]
 RULE = ('matrices from random sparse count matrices with 2..8 states (irreducible, reducible, '
         'periodic/cyclic, with absorbing, never-entered and never-visited states, block-diagonal '
